@@ -346,7 +346,7 @@ def run(ck: Check):
     if have_runner and streams:
         results = run_ocaml([s for s, _ in streams])
         settle(ck, tally, streams, results, "ocaml")
-    n_coq = ck.n(500, 5000)
+    n_coq = ck.n(300, 5000)
     sample = streams if len(streams) <= n_coq else rng.sample(streams, n_coq)
     coq_res, err = run_coq(ck, "c15_cases", [s for s, _ in sample])
     if coq_res is None:
